@@ -1,6 +1,5 @@
-(* Extraction of the activation model (C19): bus-side bookkeeping, the helper
-   decision chain with the desktop-file and command-line parsers, and the trace
-   oracle.  ExtrOcamlBasic only; N/positive stay inductive. *)
+(* Extraction of the activation model (C19): bus-side bookkeeping and the helper
+   decision chain with the desktop-file and command-line parsers.  ExtrOcamlBasic only; N/positive stay inductive. *)
 Require Extraction.
 Require Import ExtrOcamlBasic.
 From DV Require Import Lib.Base Activation.Activation Activation.Helper.
